@@ -135,7 +135,17 @@ pub fn result_json(i: u64, case: &Value, o: &Outcome, with_log: bool) -> Value {
         "case": case,
     });
     if with_log {
-        v["log"] = serde_json::to_value(&o.log).unwrap_or(Value::Null);
+        // the log travels to the parent (and into the replay file) for people to read; a run of hundreds of thousands
+        // of events is shown by its head and tail - the digest above is over all of it
+        const KEEP: usize = 2000;
+        if o.log.len() > 2 * KEEP + 1 {
+            let mut shown: Vec<Value> = o.log[..KEEP].iter().map(|e| serde_json::to_value(e).unwrap_or(Value::Null)).collect();
+            shown.push(json!({"ev": "Note", "seq": 0, "text": format!("... {} events not shown ...", o.log.len() - 2 * KEEP)}));
+            shown.extend(o.log[o.log.len() - KEEP..].iter().map(|e| serde_json::to_value(e).unwrap_or(Value::Null)));
+            v["log"] = Value::Array(shown);
+        } else {
+            v["log"] = serde_json::to_value(&o.log).unwrap_or(Value::Null);
+        }
     }
     v
 }
